@@ -1,5 +1,5 @@
 (* C19 — Emitting assigns unique item identities and counts exactly (DESIGN.md 5.C19). *)
-Require Import V.Base.Prelude V.Api.Emit V.Api.EmitProofs V.Api.EmitTie V.gen.EmitSrc.
+Require Import V.Base.Prelude V.Api.Emit V.Api.EmitProofs V.Api.EmitTie V.gen.EmitSrc V.Api.EmitMulti.
 Local Open Scope Z_scope.
 
 (* the model's Emit is the atom sequence found in the source *)
@@ -29,3 +29,16 @@ Theorem C19_nolock_refuted :
   exists sched, let s := eexec false (einit 0 0 [1%nat; 1%nat]) sched in
                 efinished s = true /\ ~ NoDup (out s).
 Proof. exact emit_nolock_refuted. Qed.
+
+(* several streams sharing the statistics: stream j has its own emitters (cfgs[j] = initial index
+   and emits per emitter), index lock and output; all share the matched-pairs counter.  For
+   every interleaving of all emitters of all streams: every stream is exact, and the shared
+   statistic grew by the total number of emits *)
+Theorem C19_several_streams : forall (m0 : Z) (cfgs : list (Z * list nat)) (sched : list (nat * nat)),
+  let ms := meexec (minit_multi m0 cfgs) sched in
+  all_finished ms = true ->
+  fst ms = m0 + Z.of_nat (fold_right Nat.add O (map (fun c => total (snd c)) cfgs))
+  /\ forall j c, nth_error cfgs j = Some c ->
+       exists s, nth_error (snd ms) j = Some s /\ length (out s) = total (snd c) /\ NoDup (out s)
+                 /\ (forall x, In x (out s) <-> fst c <= x < fst c + Z.of_nat (total (snd c))).
+Proof. exact emit_multi_exact. Qed.
